@@ -5,7 +5,7 @@
    subtraction underflows, and compress10 / compress13 are not merely total by construction. *)
 From Coq Require Import List NArith ZArith Arith Lia Bool ZifyBool ZifyNat ZifyN.
 From Mila Require Import Lib.Bytes Lib.Machine Model.LZCore Model.LZ10 Model.LZ11 Model.LZ13Machine Model.LZCompressMachine
-  Proofs.LZCoreProofs Proofs.LZTokens Proofs.LZ11Proofs Proofs.LZ13MachineProofs.
+  Proofs.LZCoreProofs Proofs.LZTokens Proofs.LZ10Proofs Proofs.LZ11Proofs Proofs.LZ13MachineProofs.
 Import ListNotations.
 Local Open Scope N_scope.
 
@@ -198,38 +198,46 @@ Proof.
   cbn [bind]. reflexivity.
 Qed.
 
-(* LZ10CompressionFormat::compress succeeds, in either profile, and returns what the list model computes *)
-Theorem compress10_m_eq m x : lenN x < 2 ^ 63 -> compress10_m m x = Ok (compress10 x).
+(* LZ10CompressionFormat::compress, machine level = the list model with its guard, for EVERY input and either
+   profile: below 2^24 bytes it succeeds with what the list model computes (no index out of range, no underflow),
+   from 2^24 bytes on it is Err(InputTooLarge) (repair of F21) *)
+Theorem compress10_m_eq m x : compress10_m m x = compress10_o x.
 Proof.
-  intros Hn. unfold compress10_m, compress10. change 18 with (N.of_nat 18).
-  apply compress_loop_m_eq; [exact Hn | lia | split; [reflexivity | exact tok10_len]].
+  unfold compress10_m, compress10_o. rewrite lenN_tr_eq. destruct (N.ltb_spec 16777215 (lenN x)) as [Hbig|Hsmall]; [reflexivity|].
+  unfold compress10. change 18 with (N.of_nat 18).
+  apply compress_loop_m_eq; [change (2 ^ 63) with 9223372036854775808; lia | lia | split; [reflexivity | exact tok10_len]].
+Qed.
+
+Theorem compress10_m_succeeds m x : lenN x < 2 ^ 24 -> compress10_m m x = Ok (compress10 x).
+Proof.
+  intros Hn. rewrite compress10_m_eq. unfold compress10_o. rewrite lenN_tr_eq. change (2 ^ 24) with 16777216 in Hn.
+  destruct (N.ltb_spec 16777215 (lenN x)); [lia | reflexivity].
+Qed.
+
+Theorem compress10_m_rejects m x : 2 ^ 24 <= lenN x -> compress10_m m x = Err ETooLarge.
+Proof.
+  intros Hn. rewrite compress10_m_eq. unfold compress10_o. rewrite lenN_tr_eq. change (2 ^ 24) with 16777216 in Hn.
+  destruct (N.ltb_spec 16777215 (lenN x)); [reflexivity | lia].
 Qed.
 
 (* LZ13CompressionFormat::compress, machine level throughout = the model with the list-level main loop *)
-Theorem compress13_mm_eq m x : lenN x < 2 ^ 63 -> compress13_mm m x = compress13_m m x.
+Theorem compress13_mm_eq m x : compress13_mm m x = compress13_m m x.
 Proof.
-  intros Hn. unfold compress13_mm, compress13_m.
+  unfold compress13_mm, compress13_m. destruct (too_large13 x) eqn:E; [reflexivity|].
+  assert (Hn : lenN x < 2 ^ 63).
+  { unfold too_large13 in E. apply N.ltb_ge in E. change (2 ^ 63) with 9223372036854775808. lia. }
   destruct (calculate_lz13_header_m x) as [h|e|p]; cbn [bind]; try reflexivity.
-  destruct (add_w W64 m 12 (lenN x)) as [a|e|p]; cbn [bind]; try reflexivity.
-  destruct (add_w W64 m (lenN x) 7) as [b|e|p]; cbn [bind]; try reflexivity.
-  destruct (add_w W64 m a (N.shiftr b 3)) as [c|e|p]; cbn [bind]; try reflexivity.
-  destruct (ISIZE_MAX <? c); [reflexivity|].
+  destruct (compress13_reserve m (lenN x)) as [c|e|p]; cbn [bind]; try reflexivity.
   change 4096 with (N.of_nat 4096). apply compress_loop_m_eq; [exact Hn | lia | exact I].
 Qed.
 
-Theorem compress13_mm_ok m x : lenN x < 2 ^ 62 -> exists r, compress13_mm m x = Ok r.
-Proof.
-  intros Hn. rewrite compress13_mm_eq; [apply compress13_m_ok; exact Hn|].
-  change (2 ^ 62) with 4611686018427387904 in Hn. change (2 ^ 63) with 9223372036854775808. lia.
-Qed.
+(* totality, for EVERY input: Ok below 2^32 bytes, Err(InputTooLarge) from 2^32 bytes on - never a panic *)
+Theorem compress13_mm_ok m x : lenN x < 2 ^ 32 ->
+  exists h, compress13_mm m x = Ok (emit_loop tok11 (header13 h (lenN x)) (tokens 4096 x)).
+Proof. intros Hn. rewrite compress13_mm_eq. apply compress13_m_small. exact Hn. Qed.
 
-Theorem compress13_mm_total m x : lenN x < 2 ^ 63 ->
-  (12 + lenN x + (lenN x + 7) / 8 <= ISIZE_MAX -> exists r, compress13_mm m x = Ok r) /\
-  (ISIZE_MAX < 12 + lenN x + (lenN x + 7) / 8 -> compress13_mm m x = Panic PAlloc).
-Proof. intros Hn. rewrite compress13_mm_eq by exact Hn. apply compress13_m_total. exact Hn. Qed.
+Theorem compress13_mm_rejects m x : 2 ^ 32 <= lenN x -> compress13_mm m x = Err ETooLarge.
+Proof. intros Hn. rewrite compress13_mm_eq. apply compress13_m_large. exact Hn. Qed.
 
-Theorem compress13_mm_list m x : lenN x < 2 ^ 31 -> compress13_mm m x = compress13 m x.
-Proof.
-  intros Hn. rewrite compress13_mm_eq; [apply compress13_m_eq; exact Hn|].
-  change (2 ^ 31) with 2147483648 in Hn. change (2 ^ 63) with 9223372036854775808. lia.
-Qed.
+Theorem compress13_mm_list m x : lenN x < 2 ^ 31 -> compress13_mm m x = compress13_o m x.
+Proof. intros Hn. rewrite compress13_mm_eq. apply compress13_m_eq. exact Hn. Qed.
